@@ -95,7 +95,14 @@ def run_history(ctx, env, hist, kind):
         name = op['op']
         ctx.count('op:' + name)
         mo, tag = model.apply(op)
+        del pgmodel.ARG_CHANGED[:]
         rs = execute(graphs['shared'], op)
+        ctx.count('clause:dictionary-arguments-come-back-unchanged')
+        if pgmodel.ARG_CHANGED:
+            ctx.violation(f'C05/{name}-changes-its-argument', 'the operation leaves the dictionary the caller passed as it was (a caller that '
+                          'uses it again for the next call must get what the reference model says)',
+                          dict(pgmodel.ARG_CHANGED[0], kind=kind, history=hist[:step + 1]))
+            return False
         snap_s, prob_s = store_global_snapshot(env.imps['shared'][0])
         trace.append({'op': op, 'shared': rs})
         w = {'history': hist[:step + 1], 'step': step, 'op': op, 'shared_result': rs, 'model_result': mo, 'kind': kind}
